@@ -71,7 +71,7 @@ var e2Exceptions = map[string]string{
 	"netpol/eval.(*PolicyEngine).allAllowedConnectionsBetweenPeers: assertion dstPeer.(k8s.Peer) [N7]":                                                                                                                                        "callers pass only *k8s.PodPeer (converted) or IP peers under IsPeerIPType (checked by rule E2-N7-callers)",
 	"netpol/diff.(mapListConnPairs).mergeBySrcOrDstIPPeers: constant index srcOrdstIPgroup[0] [N8]":                                                                                                                                           "srcOrdstIPgroup ranges over the values of a map whose entries are created only by append of one element (diffMap.update / addConnsPair), hence non-empty",
 	"netpol/eval.(*PolicyEngine).insertWorkload: podObj (declared without initialiser and assigned only by a range loop that may not run) passed to netpol/eval.(*PolicyEngine).removeRedundantRepresentativePeers (dereferenced there) [N4]": "PodsFromWorkloadObject returns a slice of numReplicas pods and numReplicas is only ever the constant 1 or 2, so the loop runs at least once (checked by rule E2-N4-len)",
-	"netpol/connlist/internal/ingressanalyzer.(*IngressAnalyzer).getIngressPeerConnection: deref of peerTCPConn (alias of result of netpol/eval.GetPeerExposedTCPConnections (returns nil at pkg/netpol/eval/check.go:183) [N11]) [N11]":      "GetPeerExposedTCPConnections returns nil only for IP peers and unknown peer types; the peers here are the values stored by mapServiceToPeers, which come from GetSelectedPeers and are *k8s.WorkloadPeer (E2-N7-store)",
+	"netpol/connlist/internal/ingressanalyzer.(*IngressAnalyzer).getIngressPeerConnection: deref of peerTCPConn (alias of result of netpol/eval.GetPeerExposedTCPConnections (has a `return nil`) [N11]) [N11]":      "GetPeerExposedTCPConnections returns nil only for IP peers and unknown peer types; the peers here are the values stored by mapServiceToPeers, which come from GetSelectedPeers and are *k8s.WorkloadPeer (E2-N7-store)",
 	"netpol/eval.(*PolicyEngine).getPoliciesSelectingPod: assertion peer.(*k8s.PodPeer) [N7]":                                                                                                                                                 "dominated by the PeerType()==IPBlockType early return; the only non-IP implementation of k8s.Peer is *PodPeer",
 }
 
@@ -363,7 +363,7 @@ func (f *nilFunc) recordNilReturns(ret *ast.ReturnStmt, fm facts.Formula) {
 		}
 		switch {
 		case core.IsNil(f.info, e):
-			why = "returns nil at " + f.a.p.Pos(ret.Pos())
+			why = "has a `return nil`"
 		default:
 			if kind, desc := f.source(e, fm); (kind == "N4" || kind == "N11") && !f.nonNil(e, kind, fm) {
 				why = "returns " + desc + " at " + f.a.p.Pos(ret.Pos())
